@@ -16,6 +16,16 @@
 (*                       have NO GEOMETRY (SoundEvent(geometry=None))]     *)
 (* Whether an event has a geometry is nobody's business but the comparison *)
 (* function's -- which is arbitrary -- so no clause mentions ng.           *)
+(*                gd |-> TRUE when the comparison function also LOOKS at   *)
+(*                       its arguments: it answers "similar" only if each  *)
+(*                       argument has / lacks a geometry exactly as the     *)
+(*                       input event of that identifier does (for genuine   *)
+(*                       input events this changes nothing),                *)
+(*                guise |-> the shape in which the comparison function is   *)
+(*                       handed over: plain function, lambda, partial,      *)
+(*                       bound method, callable object, callable object     *)
+(*                       that is FALSY (__len__ = 0 / __bool__ = False)]    *)
+(* A callable is a comparison function whatever its truth value.           *)
 (* The statement quantifies over ANY symmetric comparison function; two    *)
 (* events are similar when its answer is TRUE IN PYTHON'S SENSE (truthy),  *)
 (* so the graph -- and every clause -- is the same for every ret.          *)
@@ -29,7 +39,9 @@
 (*                                                                         *)
 (* An output is a sequence of sequences of identifiers (0 = "not one of    *)
 (* the input events") -- what is observed are events, not positions -- and *)
-(* the log of the comparison function's calls as identifier pairs.         *)
+(* the log of the comparison function's calls: <<a, b, fa, fb>> with the   *)
+(* identifiers of the two arguments and fa / fb = 1 when the argument      *)
+(* equals, in every field, the input event of that identifier (0 when not).*)
 (***************************************************************************)
 EXTENDS Lattice, TLC
 
@@ -39,7 +51,10 @@ IdEdge(c, a, b) == \E k \in DOMAIN c.e : c.e[k] = <<a, b>> \/ c.e[k] = <<b, a>>
 Edge(c, i, j)   == i # j /\ IdEdge(c, c.id[i], c.id[j])
 Mult(c, a)      == Cardinality({i \in Nodes(c) : c.id[i] = a})          \* how often event a occurs in the list
 RetTypes == {"bool", "np_bool", "int"}
+Guises == {"function", "lambda", "partial", "method", "object", "falsy_len", "falsy_bool"}
+Falsy(gz) == gz \in {"falsy_len", "falsy_bool"}
 WellFormed(c)   == /\ Len(c.id) = c.n /\ c.ret \in RetTypes /\ Range(c.ng) \subseteq Ids(c)
+                   /\ c.guise \in Guises /\ c.gd \in BOOLEAN
                    /\ \A k \in DOMAIN c.e : /\ c.e[k][1] \in Ids(c) /\ c.e[k][2] \in Ids(c) /\ c.e[k][1] <= c.e[k][2]
                                             /\ (c.e[k][1] = c.e[k][2] => Mult(c, c.e[k][1]) >= 2)
 
@@ -95,7 +110,7 @@ LawTwins(c) == LET cf == CompF(c) IN
 (* order.  Blocks are compared as bags of identifiers (twins share one).   *)
 (***************************************************************************)
 ReqClauses == {"OnlyInputEvents", "EveryEventOnce", "NoEmptySequence", "OrderKept",
-               "SameSequenceIffConnected", "EmptyGivesNone", "CallsOnDistinctInputs"}
+               "SameSequenceIffConnected", "EmptyGivesNone", "CallsOnDistinctInputs", "CallsOnInputEvents"}
 Clauses == {"Returns"} \cup ReqClauses
 
 Occ(sq, a) == Cardinality({k \in DOMAIN sq : sq[k] = a})
@@ -127,6 +142,9 @@ ClauseHolds(cl, c, seqs, calls) ==
              /\ \A r \in R : \E s \in DOMAIN seqs : SameBag(c, seqs[s], cf[r])
       [] cl = "EmptyGivesNone"  -> c.n = 0 => Len(seqs) = 0
       \* distinct list entries: two different events, or one event that the list holds at two positions
+      \* the arguments ARE input events: not stand-ins that merely share their uuid (equality in every field is demanded;
+      \* object identity is recorded by the binder but not judged -- the statement does not forbid handing over copies)
+      [] cl = "CallsOnInputEvents" -> \A k \in DOMAIN calls : Len(calls[k]) = 4 /\ calls[k][3] = 1 /\ calls[k][4] = 1
       [] cl = "CallsOnDistinctInputs" ->
              \A k \in DOMAIN calls : /\ calls[k][1] \in Ids(c) /\ calls[k][2] \in Ids(c)
                                      /\ (calls[k][1] = calls[k][2] => Mult(c, calls[k][1]) >= 2)
